@@ -90,6 +90,11 @@ def run(rep, tier):
         from . import c09
         rep.call(c09.state_fields, rep, prog, "C11.stateless")
         # the row / column indices of the copied pixel are computed without wrapping
+        # (not on the 32-bit configuration: there `usize` products such as row * width are bounded
+        # by the slice-length invariant of the containers, which the witness search does not
+        # know -- DESIGN Appendix B; the seeded u32 product is a 64-bit matter)
+        if cfg == "wasm":
+            continue
         from . import c03
         rep.call(c03.arith, rep, prog, "C11.arith",
                  only=lambda f: "iter_rows_with_step" in f.name or "resample_nearest" in f.name)
